@@ -569,6 +569,9 @@ def _robust_gp_fit_(
                 idx_drop_out = np.logical_or(
                     idx_drop_out, (Y > np.percentile(Y, 95)).flatten()
                 )
+                # Never shrink the training set below D + 1 points
+                if np.sum(~idx_drop_out) < X.shape[1] + 1:
+                    idx_drop_out[:] = False
                 X = X[~idx_drop_out]
                 Y = Y[~idx_drop_out]
                 # Remove also user specified noise
